@@ -34,6 +34,9 @@ func runC04(r *Runner, g *Gen, tier string) string {
 	var rec func(t *TyDef, cfg string, prefix []byte)
 	rec = func(t *TyDef, cfg string, prefix []byte) {
 		r.Do(codecOp("dec", cfg, t, "", A(hx(prefix)), A("zero")), len(prefix) > 0, "dec.exhaustive")
+		if descWalkable(cfg, t) {
+			r.Do(codecOp("deschost", cfg, t, "", A(hx(prefix))), len(prefix) > 0, "deschost.exhaustive")
+		}
 		if len(prefix) >= maxLen {
 			return
 		}
@@ -90,6 +93,58 @@ func runC04(r *Runner, g *Gen, tier string) string {
 				m = append(append([]byte(nil), m[p:]...), m[:p]...)
 			}
 			r.Do(codecOp("dec", cfg, t, "", A(hx(m)), A("zero")), true, "dec.mutated")
+			if descWalkable(cfg, t) {
+				r.Do(codecOp("deschost", cfg, t, "", A(hx(m))), true, "deschost.mutated")
+			}
+		}
+	}
+	// 2b. the JSON-any decoders and their descriptor walk: exhaustive short strings, then mutated valid encodings
+	jalpha := []byte{0x00, 0x01, 0x02, 0x03, 0x05, 0x06, 0x07, 0x08, 0x0a, 0x10, 0x12, 0x18, 0x1a, 0x1b, 0x7f, 0x80, 0xff}
+	jmax := scale(tier, 3, 4)
+	var jrec func(prefix []byte)
+	jrec = func(prefix []byte) {
+		for _, kind := range []string{"obj", "arr"} {
+			r.Do(L(A("jhost"), A(kind), A(hx(prefix))), len(prefix) > 0, "jhost.exhaustive")
+			r.Do(L(A("jhostdesc"), A(kind), A(hx(prefix))), len(prefix) > 0, "jhostdesc.exhaustive")
+		}
+		if len(prefix) >= jmax {
+			return
+		}
+		for _, b := range jalpha {
+			jrec(append(append([]byte(nil), prefix...), b))
+		}
+	}
+	jrec(nil)
+	for i := 0; i < scale(tier, 600, 30000); i++ {
+		v := g.jobj(1 + g.r.Intn(3))
+		kind := "obj"
+		if g.r.Bool() {
+			v, kind = g.jarr(1+g.r.Intn(3)), "arr"
+		}
+		res := execOp(L(A("jrt"), A("enc"), v))
+		if !strings.HasPrefix(res, "ok x") {
+			continue
+		}
+		enc, _ := unhx(res[3:])
+		if len(enc) == 0 || len(enc) > 400 {
+			continue
+		}
+		for k := 0; k < 4; k++ {
+			m := append([]byte(nil), enc...)
+			switch g.r.Intn(4) {
+			case 0:
+				m = m[:g.r.Intn(len(m))]
+			case 1:
+				m[g.r.Intn(len(m))] ^= byte(1 << uint(g.r.Intn(8)))
+			case 2:
+				m[g.r.Intn(len(m))] = jalpha[g.r.Intn(len(jalpha))]
+			case 3:
+				p := g.r.Intn(len(m))
+				h := huge[g.r.Intn(len(huge))]
+				m = append(append(append([]byte(nil), m[:p]...), h...), m[p+1:]...)
+			}
+			r.Do(L(A("jhost"), A(kind), A(hx(m))), true, "jhost.mutated")
+			r.Do(L(A("jhostdesc"), A(kind), A(hx(m))), true, "jhostdesc.mutated")
 		}
 	}
 	// 3. long inputs: thousands of elements / entries in every repeating wire form (count-prefixed,
@@ -124,7 +179,7 @@ func runC04(r *Runner, g *Gen, tier string) string {
 			}
 		}
 	}
-	return "every byte string up to the tier's length over a 15-byte alphabet (tags of known/unknown indexes and all wire types, 0x00, 0x7f, 0x80, 0xff) decoded into 22 target types covering every reader (exhaustive); plus truncations, bit flips, huge-varint substitutions and rotations of valid encodings of generated types; compared: outcome class ok/err/panic and the decoded value on ok; plus valid encodings with thousands of elements / entries in every repeating wire form; oracle: any panic, fatal crash or hang of the implementation, and bytes allocated during the call above a type-dependent multiple of the input length; non-trivial = non-empty input"
+	return "every byte string up to the tier's length over a 15-byte alphabet (tags of known/unknown indexes and all wire types, 0x00, 0x7f, 0x80, 0xff) decoded into 22 target types covering every reader (exhaustive), the same bytes walked with the type's Descriptor, and the JSON-any map / array codecs and their descriptor walk on exhaustive short strings and mutated valid encodings; plus truncations, bit flips, huge-varint substitutions and rotations of valid encodings of generated types; compared: outcome class ok/err/panic and the decoded value on ok; plus valid encodings with thousands of elements / entries in every repeating wire form; oracle: any panic, fatal crash or hang of the implementation, and bytes allocated during the call above a type-dependent multiple of the input length; non-trivial = non-empty input"
 }
 
 // bigValue: a value of t whose slices and maps hold n small elements.
@@ -169,4 +224,30 @@ func bigValue(t *TyDef, n int) *Val {
 		return &Val{K: "f64", U: 0x3ff0000000000000}
 	}
 	return zeroVal(t)
+}
+
+// descWalkable: the type has a Descriptor (recursive types do not: F07) and the
+// walk is within the model (the descriptor cannot express the proto forms: F06/F08
+// concern valid data, but on arbitrary bytes the walker is compared whatever the form).
+func descWalkable(cfg string, t *TyDef) bool {
+	return !containsNamedStruct(t)
+}
+
+func containsNamedStruct(t *TyDef) bool {
+	switch t.K {
+	case "struct":
+		if t.Name != "" {
+			return true
+		}
+		for _, f := range t.Fields {
+			if fieldEncoded(f) && containsNamedStruct(f.T) {
+				return true
+			}
+		}
+	case "ptr", "slice", "named":
+		return containsNamedStruct(t.Elem)
+	case "map":
+		return containsNamedStruct(t.Key) || containsNamedStruct(t.Elem)
+	}
+	return false
 }
